@@ -34,7 +34,7 @@ def main():
     ap.add_argument("src")
     ap.add_argument("property")
     ap.add_argument("--checks", default=None)
-    ap.add_argument("--skip-suite", action="store_true")
+    ap.add_argument("--skip-suite", action="store_true", help="keep the test-suite result already recorded in meta.json")
     ap.add_argument("--needs", default="")
     ap.add_argument("--tier", default="quick")
     ap.add_argument("--mode", default="worktree", choices=["worktree", "repo"])
@@ -100,9 +100,13 @@ def main():
                 out = r.stdout + r.stderr
                 viol = [l for l in out.splitlines() if l.startswith("VIOLATION")]
                 detail = [l.strip() for l in out.splitlines() if l.startswith("  ")][:3]
+                prev = results.get(f"{c}:{a.tier}")
                 results[f"{c}:{a.tier}"] = dict(rc=r.returncode, violations=len(viol), first=detail, wall_s=round(time.time() - t0),
                                               mode=a.mode, machinery_failure="MACHINERY-FAILURE" in out,
                                               tail=out[-600:] if r.returncode == 2 else "")
+                if prev is not None:      # an earlier evaluation (older /verif): kept, so that a miss that was repaired stays visible
+                    results[f"{c}:{a.tier}"]["earlier"] = prev.pop("earlier", []) + [dict(rc=prev["rc"], verif=prev.get("verif", ""))]
+                results[f"{c}:{a.tier}"]["verif"] = sh(f"git -C {VERIF} rev-parse --short HEAD").stdout.strip()
                 print(f"check {c} {a.tier} [{a.mode}]: rc={r.returncode} violations={len(viol)} {detail[:1]}", flush=True)
         finally:
             if a.mode == "repo":
